@@ -152,6 +152,8 @@ def _parse_witness(out, want_note=None):
 def search(pid, ob, repo, scratch):
     ops = ops_for(ob.get('fn', ''))
     fn = ob.get('fn', '')
+    if pid == 'C12' and (fn.startswith('HasChildren::') or fn.endswith('::insert_by_id') or fn.endswith('::delete_by_id')):
+        ops = ['dom.views_after_edits', 'dom.tree_atomic']
     if ob.get('unit') == 'eval_ctx' or fn.startswith('eval_') or fn.startswith('model::Context::') or (pid == 'C06' and fn.startswith('xpath::func::')):
         # evaluator skeleton: the witness is a whole query through xml_xpath::query on a real parsed document
         ops = {'C19': ['xpath.query.ctx_reuse'], 'C07': ['xpath.query.order'], 'C06': ['xpath.query.no_panic'], 'C05': ['xpath.query.node_test']}.get(pid, [])
